@@ -73,6 +73,60 @@ Proof.
   - exact Hcompat.
 Qed.
 
+(* ---- rule sets built by load histories: several Load calls, bundle imports, filtered groups, comment-only files ---- *)
+Definition gen_cmode : count_mode :=
+  if String.eqb gen_merge_count_mode "per-bucket" then CountPerBucket
+  else if String.eqb gen_merge_count_mode "total" then CountTotal else CountLast.
+Definition gen_kmode : comment_mode := if String.eqb gen_merge_comments_mode "append" then CommentsAppend else CommentsLast.
+Definition gen_gated : bool := negb (String.eqb gen_walk_gate "always").
+Definition gen_nb : nat := N.to_nat gen_buckets_len.
+
+(* the counter that gates the walk is kept so that "zero" means "no bucket holds a rule"; comment rules are appended;
+   every placed rule is counted at load; mergeRuleSets starts from an empty set; Engine.Load and LoadFile merge in order *)
+Lemma gen_bookkeeping_ok :
+  count_mode_ok gen_cmode = true /\ gen_kmode = CommentsAppend /\ gen_load_counts_each_rule = true /\ gen_merge_starts_empty = true /\
+  gen_engine_load_first_direct_then_merge_after = true /\ gen_loadfile_merges_own_then_imported = true.
+Proof. vm_compute. auto 10. Qed.
+
+Definition gen_built := built gen_place_err gen_place_fan gen_cmode gen_kmode gen_nb.
+Definition gen_engine_of := engine_of gen_place_err gen_place_fan gen_cmode gen_kmode gen_nb.
+
+Lemma gen_tag_in_range k t : gen_tag k = Some t -> (t < N.of_nat gen_nb)%N.
+Proof.
+  intros H. unfold gen_nb. rewrite N2Nat.id.
+  assert (In k gen_kinds) as Hin.
+  { apply in_kinds_In. unfold gen_tag in H. destruct (in_kinds k); [reflexivity|discriminate]. }
+  pose proof visit_tags_in_range as V. rewrite forallb_forall in V. specialize (V k Hin). rewrite H in V. now apply N.ltb_lt.
+Qed.
+
+(* a run of one file on a rule set: the walk happens unless the gate skips it *)
+Definition model_run_set {mdata} (M : rule -> N -> list (mdata * bool)) (s : rset) (fuel : nat) (n : node)
+  : option (list (rule * mdata)) :=
+  match model_walk fuel n st0 [] with
+  | ROk _ evs => Some (run_set gen_multi gen_matched_accumulates mdata M gen_gated s (offers_of evs))
+  | _ => None
+  end.
+
+Lemma model_run_set_exact {mdata} (M : rule -> N -> list (mdata * bool)) s rs crs fuel n :
+  wf gen_spec n -> (height n < fuel)%nat ->
+  gen_built s rs crs ->
+  (forall r, In r rs -> In (r_tag r) pattern_tags /\ gen_loadable r = true) ->
+  (forall r o, In r rs -> In o (gen_offered n) -> M r (fst o) <> [] -> In (snd o) (compat_spec (r_tag r))) ->
+  model_run_set M s fuel n = Some (spec_file gen_multi mdata M rs (gen_offered n)) /\ rs_comments s = crs.
+Proof.
+  intros Hwf Hh Hb Hrs Hcompat.
+  destruct gen_bookkeeping_ok as (Hc & Hk & _).
+  destruct (built_ok _ _ _ _ _ s rs crs Hc Hk Hb) as [Hg Hr]. split; [|exact (proj2 Hr)].
+  unfold model_run_set. rewrite walker_correct by assumption. cbn [app].
+  unfold offers_of, gen_spec. rewrite events_offered. fold gen_offered. f_equal.
+  apply (run_set_spec gen_place_err gen_place_fan gen_nb gen_multi gen_matched_accumulates mdata M compat_spec gen_gated s rs crs);
+    [exact Hg|exact Hr| | exact gen_accumulates | | |exact Hcompat].
+  - intros [i t] Ho. cbn [snd]. apply (offered_sound gen_tag) in Ho as (x & _ & _ & Ht). exact (gen_tag_in_range _ _ Ht).
+  - intros r Hr' t' Ht' Hl. destruct (Hrs r Hr') as [Htag _].
+    now apply (proj1 (place_ok_dests _ _ _ _ _ _ gen_place_ok r Htag Hl)).
+  - intros r Hr'. now apply Hrs.
+Qed.
+
 (* ---- executable comparison of the model's reports with the engine's (correspondence files) ---- *)
 Definition rep3 := (N * N * N)%type.      (* rule index, start offset, end offset of the reported node *)
 Definition rep3_eqb (a b : rep3) : bool :=
@@ -90,10 +144,16 @@ Fixpoint mt_lookup (l : list (N * N * list (N * N * bool))) (i r : N) : list (N 
   | (i', r', cbs) :: l' => if N.eqb i i' && N.eqb r r' then cbs else mt_lookup l' i r
   end.
 Definition R (i t : N) : rule := {| r_id := i; r_tag := t |}.
-(* 0 agree; 2 reports differ at index; 4 the model has no result *)
-Definition check_run (T : node) (RS : list rule) (MT : list (N * N * list (N * N * bool))) (ENG : list rep3) : N * N :=
-  match model_run (fun r i => mt_lookup MT i (r_id r)) RS (S (height T)) T with
-  | Some l => match reps_first_diff (map (fun p => (r_id (fst p), fst (snd p), snd (snd p))) l) ENG 0 with
-              | None => (0, 0) | Some i => (2, i) end
-  | None => (4, 0)
+(* a load history: per Load call the file's own syntax rules and comment rules, then those of each imported bundle file.
+   0 agree; 2 syntax reports differ at index; 4 the model has no result *)
+Definition check_run (T : node) (FILES : list file_desc) (MT : list (N * N * list (N * N * bool))) (ENG : list rep3) : N * N :=
+  match gen_engine_of FILES with
+  | Some s =>
+    match model_run_set (fun r i => mt_lookup MT i (r_id r)) s (S (height T)) T with
+    | Some l => match reps_first_diff (map (fun p => (r_id (fst p), fst (snd p), snd (snd p))) l) ENG 0 with
+                | None => (0, 0)
+                | Some i => (2, i) end
+    | None => (4, 0)
+    end
+  | None => (4, 1)
   end.
